@@ -81,6 +81,10 @@ CHECKS = {
     "C16": dict(level="exploration", ref="5 (C16)", technique="runtime monitor: interval-overlap checker over a globally sequenced device event log, with a positive control run",
                 text="Several real controllers analyse their fans concurrently; analysis intervals are taken from a globally sequenced event log and must be pairwise disjoint with the "
                      "option off; the same workload with the option on must overlap (otherwise the case does not count)."),
+    "C17": dict(level="exploration", ref="5 (C17)", technique="runtime monitor: reference-model comparison of bound device paths on generated fake hwmon trees (in-process; process-level via detect / daemon start-up)",
+                text="Generated hwmon trees with permuted enumeration order are read through the real enumeration and binding code; every generated selector must bind exactly the "
+                     "paths a reference resolution derives from the tree description, or fail with an error naming the entry - never panic, never bind another device.",
+                note="Trusted base: harness and the pure-Go gosensors stand-in (libsensors is not installed): its feature numbering mirrors libsensors'."),
 }
 
 
